@@ -421,6 +421,9 @@ func notifierRules(c *Ctx) {
 			}
 			q.add("PROV", "every Select sees a fresh exit ++ cancellation ++ send case list", okl,
 				pickS(okl, "the argument is append(append(append(make(0, n), exit...), failure...), success...) built in the Select's block", "the case list handed to reflect.Select is not rebuilt from scratch as exit ++ failure ++ success on every iteration: the index arithmetic after it would address the wrong subscriber"), sel)
+			if okl {
+				c15Index(q, fn, sel, chain)
+			}
 		}
 		chosen := resultOf(sel, 0)
 		for _, r := range returnsOf(fn) {
@@ -604,10 +607,10 @@ func loadAddr(v ssa.Value) ssa.Value {
 func init() {
 	register(&Prop{
 		ID:        "C15",
-		Technique: "guarded-by from the lock simulator, panic-before-mutation and eligibility path rules on SSA, reflect validity typestate",
+		Technique: "guarded-by from the lock simulator, panic-before-mutation and eligibility path rules on SSA, linear forms over the select loop's index arithmetic, reflect validity typestate",
 		Explanation: "the registry is mutated only under the write lock and read under the read lock for the whole publish; in SubscribeContext/Unsubscribe no panic is reachable after a registry mutation and Unsubscribe returns only after deleting; a send case is appended only if the subscription's context is not cancelled and the value is assignable to the element type (or, for an untyped nil, the element type is nilable), decided on reflect.ValueOf(value) itself; what is sent is that value (or the element's zero value); " +
-			"a cancellation case exists exactly for subscriptions with a context and records len(successCases) before the send is appended; Publish leaves its loop only when no send is pending or its own context fired; removing a send re-bases the later references on both branches; every reflect.ValueOf use is valid (the defect repaired by 78a952c).",
-		NotDecided: "exactly-once delivery under the removal/re-basing of the three parallel slices as an arithmetic statement about run-time indices (only the structural necessary conditions above are decided).",
+			"a cancellation case exists exactly for subscriptions with a context and records len(successCases) before the send is appended; Publish leaves its loop only when no send is pending or its own context fired; removing a send re-bases the later references on both branches; the index arithmetic of the select loop on linear forms: the fired index is split as chosen-len(exit) / chosen-len(exit)-len(cancellation) with the boundary tests against those lengths, each removal is copy(l[i:], l[i+1:]) + l[:len(l)-1] carried round the loop, the send removed is references[fired cancellation] or the delivered one, the cancellation case removed is the fired one or the one whose reference was compared equal, and exactly the references greater than the removed index are decremented over the whole list; every reflect.ValueOf use is valid (the defect repaired by 78a952c).",
+		NotDecided: "exactly-once delivery as a statement about every run: the per-step index relations above are decided, their composition over all rounds (an induction over the loop that uses the ascending order of the reference list, which the early break of the re-basing loop relies on) is not.",
 		Build: func(c *Ctx) []*an.Oblig {
 			rvObligations(c, func(fn string) bool { return strings.Contains(fn, "Notifier") || fn == "valueOfNotifierTarget" })
 			notifierRules(c)
